@@ -306,6 +306,33 @@ def _stats(chk):
               why="use_coslat must weight by sqrt(cos(latitude in degrees)) (clipped at the poles)")
     cw = pm.func("xeofs.utils.xarray_utils.compute_sqrt_cos_lat_weights")
     cf = FuncFacts.of(cw)
+    # between the kernel and the stored scaling factor the weights are only labelled, never recomputed: a cast to the
+    # data's dtype (integer data: 0 / 1), a rounding, a fill ... makes use_coslat differ from weights = sqrt(cos(lat))
+    LABEL_ONLY = {"rename", "assign_coords", "copy", "compute", "persist", "drop_vars", "transpose", "reset_coords", "expand_dims", "squeeze", "chunk", "assign_attrs"}
+    n_carried = 0
+    for r in [r for r in walk_no_nested(cw.node) if isinstance(r, ast.Return) and r.value is not None]:
+        for p in cf.paths(r.value, spine_only=True, follow=True):
+            idx = [i for i, o in enumerate(p.ops) if o.kind in ("arg", "via") and o.name.split(".")[-1] in ("sqrt_cos_lat_weights", "_np_sqrt_cos_lat_weights")]
+            if not idx:
+                continue
+            n_carried += 1
+            after = [o for o in p.ops[idx[-1] + 1:] if o.kind in ("method", "arg", "binop", "unary") and not (o.kind == "method" and o.name in LABEL_ONLY)
+                     and not (o.kind in ("arg", "via") and o.name.split(".")[-1] in ("apply_ufunc", "sqrt_cos_lat_weights", "compute_sqrt_cos_lat_weights"))]
+            chk.check(not after, "WIRE.stats.coslat.carried", cw, after[0].node if after else r, construct="coslat weights reach the scaler as computed",
+                      why=f"the latitude weights pass through {[f'{o.kind}:{o.name}' for o in after]} after sqrt(cos(lat)) has been computed: they are no longer sqrt(cos(latitude)) "
+                          "for every input (e.g. cast to an integer data type)")
+    chk.require(n_carried >= 1, "compute_sqrt_cos_lat_weights: the weights returned do not come from sqrt_cos_lat_weights (anchor vanished)")
+    for st in ff.statements():
+        tgt = st.targets[0] if isinstance(st, ast.Assign) and len(st.targets) == 1 else st.target if isinstance(st, ast.AnnAssign) and st.value is not None else None
+        if tgt is not None and is_self_attr(tgt, "coslat_weights_"):
+            for p in ff.paths(st.value, spine_only=True):
+                idx = [i for i, o in enumerate(p.ops) if o.kind in ("arg", "via") and o.name.split(".")[-1] == "compute_sqrt_cos_lat_weights"]
+                if not idx and not (p.atom.kind == "call" and p.atom.name.split(".")[-1] == "compute_sqrt_cos_lat_weights"):
+                    continue
+                rest = p.ops[idx[-1] + 1:] if idx else p.ops
+                after = [o for o in rest if o.kind in ("method", "arg", "binop", "unary") and not (o.kind == "method" and o.name in LABEL_ONLY)]
+                chk.check(not after, "WIRE.stats.coslat.carried", fit, after[0].node if after else st, construct="Scaler.fit stores the coslat weights as computed",
+                          why=f"the latitude weights pass through {[f'{o.kind}:{o.name}' for o in after]} before they are stored")
     okl = any((dotted(c.func) or "").endswith("extract_latitude_dimension") and c.args and norm(c.args[0]) == "feature_dims" for c in calls_in(cw))
     chk.check(okl, "WIRE.stats.coslat", cw, cw.node, construct="latitude dimension looked up among the feature dimensions",
               why="the latitude coordinate must be one of the feature dimensions")
